@@ -151,19 +151,7 @@ func (c *chanv) send(v value) {
 		panic(targetPanicStr("send on closed channel"))
 	}
 	if sch != nil {
-		// thread mode: real blocking semantics
-		if c.cap > 0 {
-			sch.block("channel send", func() bool { return len(c.buf) < c.cap || c.closed })
-			if c.closed {
-				panic(targetPanicStr("send on closed channel"))
-			}
-		}
-		c.push(v)
-		if c.cap == 0 {
-			// rendezvous: the value is visible to receivers; the sender goes on once it is taken
-			seq := c.sendCount
-			sch.block("channel send", func() bool { return c.recvCount >= seq })
-		}
+		c.sendT(v) // thread mode: threadchan.go
 		return
 	}
 	c.push(v)
@@ -177,6 +165,9 @@ func (c *chanv) push(v value) {
 }
 
 func (c *chanv) recv(elem types.Type) (value, bool) {
+	if sch != nil {
+		return c.recvT(elem) // thread mode: threadchan.go
+	}
 	if c == nil {
 		if sch != nil {
 			sch.block("receive from nil channel", func() bool { return false })
